@@ -351,6 +351,8 @@ FORM_KINDS = ["bool", "integer", "float", "string", "choice", "multichoice", "fi
 ENTITY_KINDS = {"group", "object", "multiobject", "data", "datagroup", "datavalue", "range"}
 NEED_PARENT = {"data", "datagroup", "datavalue", "range"}
 UID_FORMS = ["str", "uuid", "brace", "upper", "entity"]
+# kinds whose stored value is naturally empty ("" / null) while the parameter is disabled
+EMPTIABLE = {"string", "choice", "file", "group", "object", "multiobject", "data", "datagroup"}
 
 
 def switch_strategy():
@@ -457,7 +459,7 @@ class Built:
         self.ui_json: dict = {}
         self.meta: dict = {}   # name -> {kind, expected (snap|None), lookalike, unspecified, vclass, entity}
         self.excluded = 0      # triggers of known findings neutralised
-        self.known: dict = {}  # name -> tag of the known finding whose trigger is present (allow_known)
+        self.known: dict = {}  # name -> tags of the known findings whose trigger is present (allow_known)
 
 
 def pick_entity(cat, kind, ref, obj_index=None):
@@ -730,7 +732,7 @@ def materialize(program: dict, cat: dict, ws, geoh5_value) -> Built:
             # "optional": None, which is written as "" and refused by the reader.
             if form.get("optional", 0) is None:
                 if allow_known:
-                    built.known[name] = "dhdata-optional-none"
+                    built.known.setdefault(name, set()).add("dhdata-optional-none")
                 else:
                     del form["optional"]
                     built.excluded += 1
@@ -846,7 +848,7 @@ def apply_switches(specs, names, forms, built, allow_known):
                 if allow_known:
                     for member in names:
                         if forms[member].get("group") == group:
-                            built.known[member] = "group-owner-propagation"
+                            built.known.setdefault(member, set()).add("group-owner-propagation")
                 else:
                     del form["group"]
                     built.excluded += 1
@@ -866,7 +868,7 @@ def apply_switches(specs, names, forms, built, allow_known):
         form = forms[names[i]]
         meta = built.meta[names[i]]
         if form.get("enabled", True) is False:
-            if not sw.get("keep", True) and "isValue" not in form:
+            if not sw.get("keep", True) and spec["kind"] in EMPTIABLE:
                 form["value"] = None
             meta["expected_enabled"] = False
             meta["value_expected"] = meta["expected"]
@@ -1008,13 +1010,12 @@ def run_roundtrip(program: dict, res, pid: str = "C14"):
                     res.fail(tagged(built, name, f"{pid}/disabled-not-none/{kind}/read"), f"parameter {name!r} disabled after read but "
                                                                      f"data is {after}")
                 if meta.get("expected_enabled") is False and before != ["none"]:
-                    res.fail(tagged(built, name, f"{pid}/disabled-not-none/{kind}/constructed/"
-                                                 f"{switch_class(built.ui_json.get(name))}"),
+                    res.fail(tagged(built, name, f"{pid}/disabled-not-none/{kind}/constructed"),
                              f"parameter {name!r} generated disabled but data is {before}")
             if not meta["lookalike"] and meta.get("expected") is not None:
                 if before != meta["expected"]:
                     res.fail(tagged(built, name, f"{pid}/data-vs-generated/{kind}/{snap_kind(meta['expected'])}->"
-                                                 f"{snap_kind(before)}/{switch_class(built.ui_json.get(name))}"),
+                                                 f"{snap_kind(before)}"),
                              f"parameter {name!r} ({meta['vclass']}): generated {meta['expected']} but data is "
                              f"{before}")
         return stats
@@ -1025,8 +1026,8 @@ def run_roundtrip(program: dict, res, pid: str = "C14"):
 def tagged(built, name, sig: str) -> str:
     """Signature of a failing clause on parameter `name`; marks cases that contain the (deliberately
     allowed) trigger of a known finding so that those signatures do not hide anything else."""
-    tag = built.known.get(name)
-    return f"{sig}/known:{tag}" if tag else sig
+    tags = built.known.get(name)
+    return f"{sig}/known:{'+'.join(sorted(tags))}" if tags else sig
 
 
 def switch_class(form) -> str:
@@ -1124,3 +1125,1125 @@ def to_identifiers(value):
         except ValueError:
             return value
     return value
+
+
+# =============================================================================== C15: verdicts
+def verdict_of(fn):
+    """Run one library call -> (verdict, detail).
+
+    verdict: "accept" | "reject" (a ui.json validation error) | "crash" (any other exception);
+    detail: exception class name (reject) or ExcClass@function (crash)."""
+    from geoh5py.shared.exceptions import BaseValidationError, JSONParameterValidationError
+
+    try:
+        fn()
+    except (BaseValidationError, JSONParameterValidationError) as exc:
+        return "reject", type(exc).__name__
+    except Exception as exc:  # library fault other than a validation verdict
+        return "crash", where_raised(exc)
+    return "accept", ""
+
+
+def rules_view(validations) -> str:
+    """Canonical text of a rule table (types by name), to detect mutation."""
+
+    def norm(value):
+        if isinstance(value, type):
+            return "<" + value.__name__ + ">"
+        if isinstance(value, dict):
+            return {str(k): norm(v) for k, v in sorted(value.items(), key=lambda kv: str(kv[0]))}
+        if isinstance(value, (list, tuple)):
+            return [norm(v) for v in value]
+        if isinstance(value, (set, frozenset)):
+            return sorted(str(norm(v)) for v in value)
+        return snap(value)
+
+    return json.dumps(norm(validations), sort_keys=True, default=str)
+
+
+def uj_view(ui_json) -> str:
+    return json.dumps(snap(ui_json), sort_keys=True)
+
+
+# ------------------------------------------------------------------------------- (a) switch table
+T_OPTIONAL = ["absent", True, False]
+T_ENABLED = ["absent", True, False]
+T_GROUP = ["none", "member/noowner", "ownerT", "ownerF"] + [f"member/owner{g}/{s}" for g in "TF"
+                                                             for s in ("T", "F", "absent")]
+T_DEP = [("none", "absent")] + [(d, t) for d in ("bool/T", "bool/F", "opt/T", "opt/F", "opt/absent")
+                                for t in ("absent", "enabled", "disabled")]
+T_KINDS = ["float", "choice"]
+
+
+def table_rows():
+    rows = []
+    for kind in T_KINDS:
+        for optional in T_OPTIONAL:
+            for enabled in T_ENABLED:
+                for group in T_GROUP:
+                    for dep, dtype in T_DEP:
+                        rows.append({"layer": "table", "kind": kind, "optional": optional, "enabled": enabled,
+                                     "group": group, "dep": dep, "dtype": dtype})
+    return rows
+
+
+def build_table_forms(row):
+    from geoh5py.ui_json import templates
+
+    if row["kind"] == "float":
+        form = templates.float_parameter(value=1.5)
+        valid, invalid = 2.5, "text"
+    else:
+        form = templates.choice_string_parameter(choice_list=["A", "B"], value="A")
+        valid, invalid = "B", "C"
+    forms = {"F": form}
+    if row["optional"] != "absent":
+        form["optional"] = row["optional"]
+    if row["enabled"] != "absent":
+        form["enabled"] = row["enabled"]
+    group = row["group"]
+    if group != "none":
+        form["group"] = "g"
+        if group in ("ownerT", "ownerF"):
+            form["groupOptional"] = group == "ownerT"
+        elif group.startswith("member/owner"):
+            _, owner, state = group.split("/")
+            other = templates.string_parameter(value="o", label="owner")
+            other["group"] = "g"
+            other["groupOptional"] = owner == "ownerT"
+            if state != "absent":
+                other["enabled"] = state == "T"
+            forms["O"] = other
+        else:
+            other = templates.string_parameter(value="m", label="other member")
+            other["group"] = "g"
+            forms["O"] = other
+    dep = row["dep"]
+    if dep != "none":
+        dkind, state = dep.split("/")
+        if dkind == "bool":
+            driver = templates.bool_parameter(value=state == "T", label="driver")
+        else:
+            driver = templates.float_parameter(value=1.0, label="driver")
+            driver["optional"] = True
+            if state != "absent":
+                driver["enabled"] = state == "T"
+        forms["D"] = driver
+        form["dependency"] = "D"
+        if row["dtype"] != "absent":
+            form["dependencyType"] = row["dtype"]
+    return forms, valid, invalid
+
+
+def deciding_level(form, forms) -> str:
+    if "group" in form and any("groupOptional" in f for f in forms.values() if f.get("group") == form["group"]):
+        return "group"
+    if "dependency" in form:
+        return "dependency"
+    if "optional" in form or "enabled" in form:
+        return "optional"
+    return "plain"
+
+
+def reference_flat(forms):
+    """`data` of the other forms by the documented rule (value, or None when disabled)."""
+    return {k: (None if f.get("enabled", True) is False else f.get("value")) for k, f in forms.items()}
+
+
+def run_table_row(row, res, pid="C15"):
+    from copy import deepcopy
+
+    from geoh5py.ui_json import InputValidation
+
+    forms, valid, invalid = build_table_forms(row)
+    form = forms["F"]
+    required = docs_requires_value(form, forms)
+    level = deciding_level(form, forms)
+    switches = sum(1 for k in ("optional", "enabled", "group", "groupOptional", "dependency", "dependencyType")
+                   if k in form)
+    res.label("table:" + level)
+    res.label(f"table-switches:{min(switches, 4)}")
+    flags = f"opt={row['optional']},en={row['enabled']}"
+    for vname, value, expect in (("none", None, None if required is None else ("reject" if required else "accept")),
+                                 ("valid", valid, "accept"), ("invalid", invalid, "reject")):
+        if expect is None:
+            res.count("table_unspecified")
+            res.label("table-unspecified:" + (unspecified_reason(form, forms) or "?"))
+            continue
+        outcomes = {}
+        for surface in ("validate", "validate_data"):
+            holder = {}
+
+            def call(surface=surface, holder=holder):
+                validator = InputValidation(ui_json=deepcopy(forms))
+                holder["built"] = True
+                if surface == "validate":
+                    validator.validate("F", value)
+                else:
+                    data = reference_flat(forms)
+                    data["F"] = value
+                    validator.validate_data(data)
+
+            outcomes[surface] = verdict_of(call)
+        res.count("table_verdicts", len(outcomes))
+        for surface, (got, detail) in outcomes.items():
+            if got == expect:
+                continue
+            if got == "crash":
+                if expect == "reject":
+                    res.count("rejected_by_crash")
+                    if vname == "invalid":
+                        continue
+                res.fail(f"{pid}/table/crash/{vname}/{level}/{flags}/{detail}",
+                         f"{surface}('F', {value!r}) crashed with {detail}; documented verdict: {expect}; "
+                         f"forms={forms}")
+            else:
+                direction = "accept-invalid" if got == "accept" else "reject-valid"
+                res.fail(f"{pid}/table/{direction}/{vname}/{level}/{flags}/{detail or '-'}",
+                         f"{surface}('F', {value!r}) -> {got} {detail}; documented verdict: {expect} "
+                         f"(required={required}); forms={forms}")
+    return switches
+
+
+# ------------------------------------------------------------------------------- (b) pairs
+PAIR_KINDS = ["bool", "integer", "float", "string", "choice", "multichoice", "file", "object", "group", "data",
+              "datagroup", "datavalue", "multiobject"]
+PAIR_WS = {"objs": [{"cls": "Points", "n": 3, "data": ["float", "float", "int"],
+                     "pgs": ["Multi-element", "3D vector"]},
+                    {"cls": "Curve", "n": 2, "data": ["float", "float"], "pgs": ["Strike & dip"]}],
+           "groups": 2, "dh": True}
+PAIR_CASES = {
+    "bool": ["ok", "int", "str", "float"],
+    "integer": ["ok", "float", "str"],
+    "float": ["ok", "ok-inf", "str", "bool"],
+    "string": ["ok", "int", "float"],
+    "choice": ["ok", "not-in-list", "int"],
+    "multichoice": ["ok", "ok-one", "one-not-in-list", "int"],
+    "file": ["ok", "int"],
+    "object": ["ok", "unknown", "ill-formed", "foreign", "int"],
+    "group": ["ok", "unknown", "ill-formed", "foreign", "int"],
+    "data": ["ok", "other-parent", "unknown", "ill-formed", "foreign", "int"],
+    "datagroup": ["ok", "other-type", "other-parent", "unknown", "int"],
+    "datavalue": ["ok-value", "ok-property", "other-parent", "unknown", "ill-formed"],
+    "multiobject": ["ok", "ok-one", "one-unknown", "int"],
+}
+PAIR_APIS = ["construct", "validate_data", "data_setter", "set_data_value"]
+TYPE_INFERRED = {"bool", "integer", "float", "string", "file"}  # `construct` cannot carry a wrong type there
+
+
+def pair_strategy():
+    def case_for(kind):
+        return st.fixed_dictionaries({
+            "layer": st.just("pair"), "kind": st.just(kind), "vcase": st.sampled_from(PAIR_CASES[kind]),
+            "api": st.sampled_from(PAIR_APIS), "present": st.sampled_from(["uuid", "uuid", "entity", "str"]),
+            "opt": st.sampled_from([None, None, "enabled"]), "ref": st.integers(0, 20),
+            "pick": st.integers(0, 20), "num": st.one_of(float_values(), int_values()),
+            "text": plain_text(), "geoh5": st.sampled_from(["open_rw", "open_r", "path"]),
+            "allow_known": st.sampled_from([False] * 9 + [True]),
+        })
+
+    return st.sampled_from(PAIR_KINDS).flatmap(case_for)
+
+
+def run_pair(program, res, pid="C15"):
+    """One (form kind, value) pair whose verdict is known by construction, through one API."""
+    from copy import deepcopy
+
+    from geoh5py.ui_json import InputFile, templates
+    from geoh5py.ui_json.constants import default_ui_json
+    from geoh5py.workspace import Workspace
+
+    kind, vcase, api = program["kind"], program["vcase"], program["api"]
+    present = program.get("present", "uuid")
+    allow_known = bool(program.get("allow_known"))
+    ws = other = opened = None
+    try:
+        ws, cat = build_workspace(PAIR_WS)
+        ws.close()
+        other, cat2 = build_workspace({"objs": [{"cls": "Points", "n": 2, "data": ["float"], "pgs": []}],
+                                       "groups": 1, "dh": False}, stem="other")
+        mode = program.get("geoh5", "open_rw")
+        if api != "construct" and mode == "path":
+            mode = "open_r"
+        if mode == "path":
+            geoh5_value = cat["path"]
+        else:
+            opened = Workspace(cat["path"], mode="r+" if mode == "open_rw" else "r")
+            geoh5_value = opened
+        uj = deepcopy(default_ui_json)
+        uj["geoh5"] = geoh5_value
+        obj0, obj1 = cat["objs"][0], cat["objs"][1]
+        uj["o"] = templates.object_parameter(value=str(obj0["uid"]), label="parent")
+        ref, pick = program.get("ref", 0), program.get("pick", 0)
+
+        def ident(uid, how=present):
+            if how == "entity":
+                holder = opened
+                found = present_uid(uid, "entity", holder)
+                return found if not isinstance(found, str) else uid
+            if how == "str":
+                return str(uid)
+            return uid
+
+        unknown = _uuid.UUID(int=(ref + 1) * 7919 + 5, version=4)
+        foreign_entity = other.get_entity(cat2["objs"][0]["uid"])[0]
+        number = dec(program.get("num", {"t": "float", "v": "1.5"}))
+        text = safe_text(program.get("text") or "abc")
+        expect = "accept" if vcase.startswith("ok") else "reject"
+        unspecified = None
+
+        # ---- the form with a valid stored value, and the candidate value
+        if kind == "bool":
+            form = templates.bool_parameter(value=bool(ref % 2))
+            value = {"ok": bool(pick % 2), "int": 1, "str": "True", "float": 1.0}[vcase]
+        elif kind == "integer":
+            form = templates.integer_parameter(value=ref)
+            value = {"ok": int(number) if np.isfinite(number) else 7, "float": 1.5, "str": "1"}[vcase]
+        elif kind == "float":
+            form = templates.float_parameter(value=0.25 * ref)
+            value = {"ok": float(number), "ok-inf": float("inf") if pick % 2 else float("-inf"), "str": "1.0",
+                     "bool": True}[vcase]
+        elif kind == "string":
+            form = templates.string_parameter(value="stored")
+            value = {"ok": text, "int": 5, "float": 2.5}[vcase]
+        elif kind == "choice":
+            form = templates.choice_string_parameter(choice_list=["A", "B", text], value="A")
+            value = {"ok": ["A", "B", text][pick % 3], "not-in-list": text + "?", "int": 3}[vcase]
+        elif kind == "multichoice":
+            form = templates.choice_string_parameter(choice_list=["A", "B", text], value=["A"], multi_select=True)
+            value = {"ok": ["B", text], "ok-one": ["A", "B", text][pick % 3:][:1], "one-not-in-list": ["A", text + "?"],
+                     "int": 3}[vcase]
+        elif kind == "file":
+            form = templates.file_parameter(value="a.txt", file_type=("txt",), file_description=("text",))
+            value = {"ok": "dir/" + (text.replace(";", "_") or "b") + ".txt", "int": 5}[vcase]
+        elif kind in ("object", "group"):
+            good = [o["uid"] for o in cat["objs"]] if kind == "object" else \
+                [g["uid"] for g in cat["groups"]] + [cat["dhg"]["uid"]]
+            maker = templates.object_parameter if kind == "object" else templates.group_parameter
+            form = maker(value=str(good[ref % len(good)]))
+            value = {"ok": lambda: ident(good[pick % len(good)]), "unknown": lambda: ident(unknown, "str" if present == "str" else "uuid"),
+                     "ill-formed": lambda: "not-a-" + str(good[0])[6:], "foreign": lambda: foreign_entity,
+                     "int": lambda: 5}[vcase]()
+        elif kind == "multiobject":
+            good = [o["uid"] for o in cat["objs"]]
+            form = templates.object_parameter(value=[str(good[0])], multi_select=True)
+            value = {"ok": lambda: [ident(g) for g in good], "ok-one": lambda: [ident(good[pick % 2])],
+                     "one-unknown": lambda: [ident(good[0]), ident(unknown, "str" if present == "str" else "uuid")],
+                     "int": lambda: 5}[vcase]()
+        elif kind == "data":
+            mine = [d["uid"] for d in obj0["data"]]
+            theirs = [d["uid"] for d in obj1["data"]]
+            form = templates.data_parameter(parent="o", value=str(mine[ref % len(mine)]))
+            value = {"ok": lambda: ident(mine[pick % len(mine)]), "other-parent": lambda: ident(theirs[pick % len(theirs)]),
+                     "unknown": lambda: ident(unknown, "str" if present == "str" else "uuid"),
+                     "ill-formed": lambda: "zz" + str(mine[0])[2:], "foreign": lambda: foreign_entity,
+                     "int": lambda: 5}[vcase]()
+        elif kind == "datagroup":
+            declared = obj0["pgs"][ref % 2]
+            another = obj0["pgs"][(ref + 1) % 2]
+            form = templates.data_parameter(parent="o", value=str(declared["uid"]), data_group_type=declared["type"])
+            value = {"ok": lambda: ident(declared["uid"]), "other-type": lambda: ident(another["uid"]),
+                     "other-parent": lambda: ident(obj1["pgs"][0]["uid"]),
+                     "unknown": lambda: ident(unknown, "str" if present == "str" else "uuid"), "int": lambda: 5}[vcase]()
+        elif kind == "datavalue":
+            mine = [d["uid"] for d in obj0["data"]]
+            theirs = [d["uid"] for d in obj1["data"]]
+            form = templates.data_value_parameter(parent="o", value=1.0, is_value=True, prop=mine[0])
+            value = {"ok-value": lambda: float(number) if isinstance(number, float) else int(number),
+                     "ok-property": lambda: ident(mine[pick % len(mine)]),
+                     "other-parent": lambda: ident(theirs[pick % len(theirs)]),
+                     "unknown": lambda: ident(unknown, "str" if present == "str" else "uuid"),
+                     "ill-formed": lambda: "zz" + str(mine[0])[2:]}[vcase]()
+        else:  # pragma: no cover
+            raise ValueError(kind)
+        if program.get("opt"):
+            form.update(templates.optional_parameter(program["opt"]))
+        uj["x"] = form
+
+        # identifiers given as text are only converted on the ui.json path (numify); elsewhere the
+        # documentation does not say whether text identifiers are looked up -> unspecified, counted
+        is_text_identifier = isinstance(value, str) and classify_string(value) == "uuid" or (
+            isinstance(value, list) and any(isinstance(v, str) and classify_string(v) == "uuid" for v in value))
+        if is_text_identifier and api != "construct" and expect == "reject":
+            unspecified = "text-identifier-outside-ui_json"
+        if api == "construct" and kind in TYPE_INFERRED and expect == "reject":
+            unspecified = "type-inferred-from-stored-value"
+        if api == "construct" and kind == "datavalue":
+            if isinstance(value, (int, float)):
+                uj["x"]["value"] = value
+            else:
+                uj["x"]["isValue"] = False
+                uj["x"]["property"] = value if not hasattr(value, "uid") else value.uid
+        elif api == "construct":
+            uj["x"]["value"] = value
+        if api == "construct" and hasattr(value, "uid") and vcase == "foreign":
+            unspecified = unspecified  # entities may be stored in a ui.json dictionary: verdict applies
+
+        res.label(f"pair:{kind}/{vcase}")
+        res.label("pair-api:" + api)
+        if isinstance(value, _uuid.UUID) or hasattr(value, "uid") or is_text_identifier:
+            res.label("pair-present:" + ("entity" if hasattr(value, "uid") else "str" if isinstance(value, str)
+                                         else "uuid"))
+        if unspecified:
+            res.count("pair_unspecified")
+            res.label("pair-unspecified:" + unspecified)
+            return False
+
+        # ---- the call
+        if api == "construct":
+            got, detail = verdict_of(lambda: InputFile(ui_json=uj).data)
+        else:
+            try:
+                ifile = InputFile(ui_json=uj)
+                base = dict(ifile.data)
+            except Exception as exc:  # the valid stored form itself was refused: harness expectation wrong?
+                res.fail(f"{pid}/pair/reject-valid/{kind}/stored/{api}/{where_raised(exc)}",
+                         f"InputFile refused a ui.json holding a valid {kind} form: {type(exc).__name__}: "
+                         f"{str(exc)[:300]}")
+                return False
+            before = (uj_view(base), uj_view(ifile.ui_json), rules_view(ifile.validations))
+            if api == "validate_data":
+                data = dict(base)
+                data["x"] = value
+                got, detail = verdict_of(lambda: ifile.validators.validate_data(data))
+            elif api == "data_setter":
+                data = dict(base)
+                data["x"] = value
+
+                def assign():
+                    ifile.data = data
+
+                got, detail = verdict_of(assign)
+            else:
+                got, detail = verdict_of(lambda: ifile.set_data_value("x", value))
+            if got != "accept":
+                after = (uj_view(ifile.data), uj_view(ifile.ui_json), rules_view(ifile.validations))
+                for what, a, b in zip(("data", "ui_json", "validations"), before, after):
+                    if a != b:
+                        res.fail(f"{pid}/pair/rejected-call-changed-state/{api}/{what}/{kind}",
+                                 f"{api}('x', {value!r}) was refused ({detail}) but {what} changed: {a[:300]} -> "
+                                 f"{b[:300]}")
+        res.count("pair_verdicts")
+        vclass = type(value).__name__ if not isinstance(value, list) else "list"
+        if got == "crash":
+            res.label("pair-crash:" + detail)
+        if got != expect:
+            if got == "crash" and expect == "reject":
+                res.count("rejected_by_crash")
+            elif got == "crash":
+                res.fail(f"{pid}/pair/reject-valid/{kind}/{vcase}/{api}/crash:{detail}/{vclass}",
+                         f"{api}: valid {kind} value {value!r} crashed: {detail}")
+            else:
+                direction = "accept-invalid" if got == "accept" else "reject-valid"
+                res.fail(f"{pid}/pair/{direction}/{kind}/{vcase}/{api}/{detail or '-'}/{vclass}",
+                         f"{api}: {kind} value {value!r} ({vcase}) -> {got} {detail}; by construction: {expect}")
+        return True
+    finally:
+        env.close_quietly(opened, other, ws)
+
+
+# ------------------------------------------------------------------------------- (c) histories
+HISTORY_TARGETS = ["pool", "parameter", "form", "validator", "inputvalidation", "inputfile", "uijson"]
+
+# value pools: (label, value) — JSON-able so that calls can be stored in programs
+POOL_VALUES = [("a", "a"), ("b", "b"), ("c", "c"), ("int5", 5), ("float", 1.5), ("none", None), ("true", True),
+               ("uuid", "12345678-1234-5678-1234-567812345678"), ("baduuid", "not-a-uuid"), ("list", ["a"])]
+POOL_RULES = {
+    "type-str+value": {"type": ["str"], "value": ["a", "b"]},
+    "type-str+uuid": {"type": ["str"], "uuid": None},
+    "type-int": {"type": ["int"]},
+    "value": {"value": ["a", "b", 5]},
+    "type-str+value+uuid": {"type": ["str"], "value": ["a", "12345678-1234-5678-1234-567812345678"], "uuid": None},
+}
+TYPES = {"str": str, "int": int, "float": float, "bool": bool, "list": list}
+PARAM_CLASSES = ["StringParameter", "IntegerParameter", "FloatParameter", "NumericParameter", "BoolParameter",
+                 "StringListParameter", "ValueRestricted", "TypeRestricted", "TwoRules"]
+FORM_CLASSES = ["StringFormParameter", "BoolFormParameter", "IntegerFormParameter", "FloatFormParameter",
+                "ChoiceStringFormParameter"]
+
+
+def history_strategy(max_calls=8):
+    pool_value = st.integers(0, len(POOL_VALUES) - 1)
+    call = st.fixed_dictionaries({"v": pool_value, "op": st.integers(0, 9), "k": st.integers(0, 9),
+                                  "num": st.one_of(float_values(), int_values())})
+
+    def for_target(target):
+        return st.fixed_dictionaries({
+            "layer": st.just("history"), "target": st.just(target),
+            "variant": st.integers(0, 20),
+            "calls": st.lists(call, min_size=2, max_size=max_calls),
+            "allow_known": st.sampled_from([False] * 9 + [True]),
+        })
+
+    return st.sampled_from(HISTORY_TARGETS + ["pool", "parameter", "inputfile", "inputvalidation"]).flatmap(for_target)
+
+
+class HistoryState:
+    def __init__(self):
+        self.accepted_after_reject = False
+        self.rejections = 0
+        self.accepts = 0
+        self.seen_reject = False
+        self.calls = 0
+
+    def note(self, fresh_verdict):
+        self.calls += 1
+        if fresh_verdict == "accept":
+            self.accepts += 1
+            if self.seen_reject:
+                self.accepted_after_reject = True
+        else:
+            self.rejections += 1
+            self.seen_reject = True
+
+
+def compare_call(res, pid, target, op, used, fresh, what, known=None):
+    """Differential statelessness: same call on the used object and on a fresh one."""
+    if used == fresh:
+        return True
+    sig = f"{pid}/history/verdict-differs/{target}/{op}/used={used[0]}:{used[1] or '-'}/fresh={fresh[0]}:{fresh[1] or '-'}"
+    if known:
+        sig += f"/known:{known}"
+    res.fail(sig, f"{target}.{op} {what}: used object -> {used}, fresh object -> {fresh}")
+    return False
+
+
+def make_pool(rules_name):
+    from geoh5py.shared.utils import SetDict
+    from geoh5py.ui_json.enforcers import EnforcerPool
+
+    rules = POOL_RULES[rules_name]
+    spec = {}
+    for key, val in rules.items():
+        if key == "type":
+            spec[key] = [TYPES[t] for t in val]
+        elif key == "uuid":
+            spec[key] = None
+        else:
+            spec[key] = list(val)
+    return EnforcerPool.from_validations("p", SetDict(**spec))
+
+
+def rule_violations(rules_name, value) -> int:
+    """Reference: how many of the pool's rules the value breaks (None passes type and uuid rules,
+    as documented by `test_skip_validation_on_none_value` / TypeEnforcer.rule / UUIDEnforcer.rule)."""
+    rules = POOL_RULES[rules_name]
+    broken = 0
+    if "type" in rules and value is not None:
+        kinds = tuple(TYPES[t] for t in rules["type"])
+        if not isinstance(value, kinds):
+            broken += 1
+    if "value" in rules:
+        try:
+            if value not in rules["value"]:
+                broken += 1
+        except TypeError:
+            broken += 1
+    if "uuid" in rules and value is not None:
+        try:
+            _uuid.UUID(str(value))
+        except ValueError:
+            broken += 1
+    return broken
+
+
+def run_history(program, res, pid="C15"):
+    target = program["target"]
+    res.label("history:" + target)
+    runner = {"pool": hist_pool, "parameter": hist_parameter, "form": hist_form, "validator": hist_validator,
+              "inputvalidation": hist_inputvalidation, "inputfile": hist_inputfile, "uijson": hist_uijson}[target]
+    state = HistoryState()
+    runner(program, res, pid, state)
+    res.count("history_calls", state.calls)
+    if state.accepted_after_reject:
+        res.label("history:accept-after-reject")
+    return state
+
+
+# ---- EnforcerPool
+def hist_pool(program, res, pid, state):
+    names = sorted(POOL_RULES)
+    rules_name = names[program.get("variant", 0) % len(names)]
+    allow_known = bool(program.get("allow_known"))
+    used = make_pool(rules_name)
+    poisoned = False
+    for call in program["calls"]:
+        label, value = POOL_VALUES[call["v"] % len(POOL_VALUES)]
+        if isinstance(value, list) and "value" in POOL_RULES[rules_name]:
+            value = "c"  # unhashable vs set membership is not a validation question
+            label = "c"
+        broken = rule_violations(rules_name, value)
+        # KNOWN FINDING guard (pool-keeps-errors): an aggregate (>= 2 broken rules) is never cleared
+        if broken >= 2 and not allow_known:
+            res.count("excluded_by_finding")
+            continue
+        got = verdict_of(lambda: used.enforce(value))
+        fresh_pool = make_pool(rules_name)
+        fresh = verdict_of(lambda: fresh_pool.enforce(value))
+        state.note(fresh[0])
+        expect = "accept" if broken == 0 else "reject"
+        if fresh[0] != expect:
+            res.fail(f"{pid}/history/fresh-verdict-wrong/pool/{rules_name}/{label}",
+                     f"fresh EnforcerPool({rules_name}).enforce({value!r}) -> {fresh}, {broken} rules broken")
+        res.label(f"pool-broken-rules:{broken}")
+        ok = compare_call(res, pid, "pool", "enforce", got, fresh, f"({rules_name}, {value!r})",
+                          "pool-keeps-errors" if poisoned else None)
+        if broken >= 2:
+            poisoned = True
+        if not ok and not poisoned:
+            break
+
+
+# ---- Parameter
+def make_parameter(variant):
+    from geoh5py.ui_json import parameters as P
+
+    name = PARAM_CLASSES[variant % len(PARAM_CLASSES)]
+    if name == "ValueRestricted":
+        return name, P.ValueRestrictedParameter("p", ["a", "b", 5])
+    if name == "TypeRestricted":
+        return name, P.TypeRestrictedParameter("p", [str, float])
+    if name == "TwoRules":
+        class TwoRules(P.Parameter):  # a user-defined parameter with two static rules (documented extension)
+            static_validations = {"type": str, "value": ["a", "b"]}
+
+        return name, TwoRules("p")
+    return name, getattr(P, name)("p")
+
+
+PARAM_ACCEPTS = {
+    "StringParameter": lambda v: v is None or isinstance(v, str),
+    "IntegerParameter": lambda v: v is None or isinstance(v, int),
+    "FloatParameter": lambda v: v is None or isinstance(v, float),
+    "NumericParameter": lambda v: v is None or isinstance(v, (int, float)),
+    "BoolParameter": lambda v: v is None or isinstance(v, bool),
+    "StringListParameter": lambda v: v is None or isinstance(v, (list, str)),
+    "ValueRestricted": lambda v: not isinstance(v, list) and v in ["a", "b", 5],
+    "TypeRestricted": lambda v: v is None or isinstance(v, (str, float)),
+    "TwoRules": lambda v: not isinstance(v, list) and v in ["a", "b"],
+}
+
+
+def hist_parameter(program, res, pid, state):
+    variant = program.get("variant", 0)
+    allow_known = bool(program.get("allow_known"))
+    cls_name, used = make_parameter(variant)
+    res.label("parameter:" + cls_name)
+    poisoned = False
+    for call in program["calls"]:
+        label, value = POOL_VALUES[call["v"] % len(POOL_VALUES)]
+        if isinstance(value, list) and cls_name in ("ValueRestricted", "TwoRules"):
+            label, value = "c", "c"
+        if cls_name == "TwoRules" and value is not None and not isinstance(value, str) and not allow_known:
+            res.count("excluded_by_finding")  # two rules broken at once: pool-keeps-errors
+            continue
+        expect = "accept" if PARAM_ACCEPTS[cls_name](value) else "reject"
+        before = snap(used.value)
+
+        def assign(target=used):
+            target.value = value
+
+        got = verdict_of(assign)
+        _, fresh_param = make_parameter(variant)
+        fresh = verdict_of(lambda: assign(fresh_param))
+        state.note(fresh[0])
+        if fresh[0] != expect:
+            res.fail(f"{pid}/history/fresh-verdict-wrong/parameter/{cls_name}/{label}",
+                     f"fresh {cls_name}.value = {value!r} -> {fresh}; by construction {expect}")
+        ok = compare_call(res, pid, "parameter", "value", got, fresh, f"{cls_name} = {value!r}",
+                          "pool-keeps-errors" if poisoned else None)
+        if cls_name == "TwoRules" and value is not None and not isinstance(value, str):
+            poisoned = True
+        if got[0] != "accept":
+            after = snap(used.value)
+            if after != before:
+                # KNOWN FINDING (parameter-stores-before-validating); the stored value is put back
+                # so that the history continues from the documented state.
+                sig = f"{pid}/history/rejected-call-changed-state/parameter/value"
+                if allow_known:
+                    res.fail(sig, f"{cls_name}.value = {value!r} was refused ({got[1]}) but value is now {after} "
+                                  f"(was {before})")
+                else:
+                    res.count("excluded_by_finding")
+                used._value = dec_snap(before)  # pylint: disable=protected-access
+        if not ok and not poisoned:
+            break
+
+
+def dec_snap(snapped):
+    kind = snapped[0]
+    if kind == "none":
+        return None
+    if kind == "int":
+        return int(snapped[1])
+    if kind == "float":
+        return float.fromhex(snapped[1])
+    if kind == "list":
+        return [dec_snap(v) for v in snapped[1]]
+    return snapped[1]
+
+
+# ---- FormParameter
+def make_form(variant):
+    from geoh5py.ui_json import forms as F
+
+    name = FORM_CLASSES[variant % len(FORM_CLASSES)]
+    if name == "ChoiceStringFormParameter":
+        return name, F.ChoiceStringFormParameter("x", choice_list=["a", "b"], value="a", label="L")
+    start = {"StringFormParameter": "a", "BoolFormParameter": True, "IntegerFormParameter": 5,
+             "FloatFormParameter": 1.5}[name]
+    return name, getattr(F, name)("x", value=start, label="L")
+
+
+FORM_VALUE_OK = {
+    "StringFormParameter": lambda v: v is None or isinstance(v, str),
+    "BoolFormParameter": lambda v: v is None or isinstance(v, bool),
+    "IntegerFormParameter": lambda v: v is None or isinstance(v, int),
+    "FloatFormParameter": lambda v: v is None or isinstance(v, float),
+    "ChoiceStringFormParameter": lambda v: not isinstance(v, list) and v in ["a", "b"],
+}
+MEMBER_OPS = [("label", "text", lambda v: v is None or isinstance(v, str)),
+              ("tooltip", "text", lambda v: v is None or isinstance(v, str)),
+              ("main", "bool", lambda v: v is None or isinstance(v, bool)),
+              ("dependency_type", "choice", lambda v: not isinstance(v, list) and v in ["enabled", "disabled"]),
+              ("enabled", "bool", lambda v: v is None or isinstance(v, bool))]
+
+
+def hist_form(program, res, pid, state):
+    variant = program.get("variant", 0)
+    allow_known = bool(program.get("allow_known"))
+    cls_name, used = make_form(variant)
+    res.label("form:" + cls_name)
+    accepted_ops = []  # (member, value) accepted so far: replayed on the fresh form through the constructor
+    for call in program["calls"]:
+        label, value = POOL_VALUES[call["v"] % len(POOL_VALUES)]
+        op = call["op"] % 4
+        if op == 3:
+            # validate(): required members present -> accept by construction
+            got = verdict_of(used.validate)
+            fresh_form = rebuild_form(variant, accepted_ops)
+            fresh = verdict_of(fresh_form.validate)
+            state.note(fresh[0])
+            if not compare_call(res, pid, "form", "validate", got, fresh, cls_name):
+                break
+            continue
+        if op in (0, 1):
+            member, expect_fn = "value", FORM_VALUE_OK[cls_name]
+            if cls_name == "ChoiceStringFormParameter" and isinstance(value, list):
+                label, value = "c", "c"
+        else:
+            member, _kind, expect_fn = MEMBER_OPS[call["k"] % len(MEMBER_OPS)]
+            if member == "dependency_type":
+                value = ["enabled", "disabled", "sometimes", 5][call["v"] % 4]
+        expect = "accept" if expect_fn(value) else "reject"
+        before = uj_view(used.form())
+        active_before = list(used.active)
+
+        def assign(target=used, member=member, value=value):
+            setattr(target, member, value)
+
+        got = verdict_of(assign)
+        fresh_form = rebuild_form(variant, accepted_ops)
+        fresh = verdict_of(lambda: assign(fresh_form))
+        state.note(fresh[0])
+        if fresh[0] != expect:
+            res.fail(f"{pid}/history/fresh-verdict-wrong/form/{cls_name}/{member}/{label}",
+                     f"fresh {cls_name}.{member} = {value!r} -> {fresh}; by construction {expect}")
+        if not compare_call(res, pid, "form", member, got, fresh, f"{cls_name}.{member} = {value!r}"):
+            break
+        if got[0] == "accept":
+            accepted_ops.append((member, value))
+        else:
+            after = uj_view(used.form())
+            if after != before or list(used.active) != active_before:
+                sig = f"{pid}/history/rejected-call-changed-state/form/{member}"
+                if allow_known:
+                    res.fail(sig, f"{cls_name}.{member} = {value!r} was refused ({got[1]}) but the form changed: "
+                                  f"{before} -> {after}; active {active_before} -> {list(used.active)}")
+                else:
+                    res.count("excluded_by_finding")
+                # continue from the documented state
+                used = rebuild_form(variant, accepted_ops)
+
+
+def rebuild_form(variant, accepted_ops):
+    _, form = make_form(variant)
+    for member, value in accepted_ops:
+        getattr(form, f"_{member}")._value = value  # pylint: disable=protected-access
+        if member != "value" and member not in form._active_members:  # pylint: disable=protected-access
+            form._active_members.append(member)  # pylint: disable=protected-access
+    return form
+
+
+# ---- validator instances (shared `valid` objects must not be mutated, verdicts must not drift)
+def hist_validator(program, res, pid, state):
+    from geoh5py.shared import validators as V
+
+    variant = program.get("variant", 0) % 4
+    which = ["types", "values", "uuid", "optional"][variant]
+    cls = {"types": V.TypeValidator, "values": V.ValueValidator, "uuid": V.UUIDValidator,
+           "optional": V.OptionalValidator}[which]
+    res.label("validator:" + which)
+    used = cls()
+    shared_valid = {"types": [str, float], "values": ["a", "b", 5], "uuid": None, "optional": False}[which]
+    for call in program["calls"]:
+        label, value = POOL_VALUES[call["v"] % len(POOL_VALUES)]
+        if which == "types":
+            flat = value if isinstance(value, list) else [value]
+            expect = "accept" if all(isinstance(v, (str, float)) for v in flat) else "reject"
+        elif which == "values":
+            flat = value if isinstance(value, list) else [value]
+            expect = "accept" if value is None or all(v is None or v in ["a", "b", 5] for v in flat) else "reject"
+        elif which == "uuid":
+            expect = "reject" if isinstance(value, str) and classify_string(value) != "uuid" else "accept"
+        else:
+            expect = "reject" if value is None else "accept"
+        view_before = rules_view(shared_valid)
+        got = verdict_of(lambda: used("p", value, shared_valid))
+        fresh_valid = {"types": [str, float], "values": ["a", "b", 5], "uuid": None, "optional": False}[which]
+        fresh = verdict_of(lambda: cls()("p", value, fresh_valid))
+        state.note(fresh[0])
+        if fresh[0] != expect:
+            res.fail(f"{pid}/history/fresh-verdict-wrong/validator/{which}/{label}",
+                     f"{cls.__name__}('p', {value!r}, {fresh_valid}) -> {fresh}; by construction {expect}")
+        if rules_view(shared_valid) != view_before:
+            res.fail(f"{pid}/history/call-changed-rules/validator/{which}",
+                     f"{cls.__name__} mutated its `valid` argument: {view_before} -> {rules_view(shared_valid)}")
+        if not compare_call(res, pid, "validator", which, got, fresh, f"{value!r}"):
+            break
+
+
+# ---- InputValidation
+def iv_forms(variant):
+    from geoh5py.ui_json import templates
+
+    forms = {
+        "f": templates.float_parameter(value=1.5),
+        "s": templates.string_parameter(value="text"),
+        "c": templates.choice_string_parameter(choice_list=["a", "b"], value="a"),
+        "i": templates.integer_parameter(value=3, optional="enabled"),
+        "a": templates.float_parameter(value=2.5, optional="disabled"),
+        "b": templates.float_parameter(value=3.5, optional="disabled"),
+        "m": templates.choice_string_parameter(choice_list=["a", "b", "c"], value=["a"], multi_select=True,
+                                               optional="disabled"),
+    }
+    extra = None
+    if variant % 2:
+        extra = {"a": {"one_of": "a-or-b"}, "b": {"one_of": "a-or-b"}}
+    return forms, extra
+
+
+IV_KEYS = ["f", "s", "c", "i", "a", "b", "m"]
+
+
+def iv_expect(key, value, forms):
+    """By-construction verdict of one (form, value) for the fixed forms of `iv_forms`."""
+    if value is None:
+        return "accept" if forms[key].get("enabled", True) is False else "reject"
+    if key in ("f", "a", "b"):
+        return "accept" if isinstance(value, float) else "reject"
+    if key == "s":
+        return "accept" if isinstance(value, str) else ("unspecified" if isinstance(value, list) else "reject")
+    if key == "i":
+        if isinstance(value, bool):
+            return "unspecified"
+        return "accept" if isinstance(value, int) else "reject"
+    if key == "c":
+        if isinstance(value, list):
+            return "unspecified"
+        return "accept" if value in ("a", "b") else "reject"
+    if key == "m":
+        flat = value if isinstance(value, list) else [value]
+        return "accept" if all(isinstance(v, str) and v in ("a", "b", "c") for v in flat) else "reject"
+    return "unspecified"
+
+
+def hist_inputvalidation(program, res, pid, state):
+    from copy import deepcopy
+
+    from geoh5py.ui_json import InputValidation
+
+    variant = program.get("variant", 0)
+    allow_known = bool(program.get("allow_known"))
+    forms, extra = iv_forms(variant)
+    res.label("inputvalidation:" + ("one_of" if extra else "plain"))
+
+    def build():
+        return InputValidation(ui_json=deepcopy(forms), validations=deepcopy(extra))
+
+    used = build()
+    for call in program["calls"]:
+        label, value = POOL_VALUES[call["v"] % len(POOL_VALUES)]
+        key = IV_KEYS[call["k"] % len(IV_KEYS)]
+        whole = call["op"] % 3 == 0
+        rules_before = rules_view(used.validations)
+        if whole:
+            data = reference_flat(forms)
+            data[key] = value
+            if call["op"] % 2 == 0:
+                data["a"] = None
+                data["b"] = None if key != "b" else data["b"]
+            one_of_breaks = bool(extra) and data["a"] is None and data["b"] is None
+            expect = iv_expect(key, value, forms)
+            if expect == "accept" and one_of_breaks:
+                expect = "reject"
+            # KNOWN FINDING guard (validate-data-pops-one-of): validate_data removes the `one_of` rules from
+            # the shared rule table, so only the first call enforces them
+            if extra and not allow_known:
+                res.count("excluded_by_finding")
+                continue
+            got = verdict_of(lambda: used.validate_data(dict(data)))
+            fresh_iv = build()
+            fresh = verdict_of(lambda: fresh_iv.validate_data(dict(data)))
+            what = f"validate_data({key}={value!r}, a={data['a']!r}, b={data['b']!r})"
+            op = "validate_data"
+        else:
+            expect = iv_expect(key, value, forms)
+            got = verdict_of(lambda: used.validate(key, value))
+            fresh_iv = build()
+            fresh = verdict_of(lambda: fresh_iv.validate(key, value))
+            what = f"validate({key!r}, {value!r})"
+            op = "validate"
+        state.note(fresh[0])
+        if expect != "unspecified" and fresh[0] != expect:
+            res.fail(f"{pid}/history/fresh-verdict-wrong/inputvalidation/{op}/{key}/{label}",
+                     f"fresh InputValidation.{what} -> {fresh}; by construction {expect}")
+        known = "validate-data-pops-one-of" if (extra and allow_known) else None
+        if rules_view(used.validations) != rules_before:
+            sig = f"{pid}/history/call-changed-rules/inputvalidation/{op}"
+            res.fail(sig + (f"/known:{known}" if known else ""),
+                     f"{what} changed the rule table: {rules_before} -> {rules_view(used.validations)}")
+        if not compare_call(res, pid, "inputvalidation", op, got, fresh, what, known):
+            if not known:
+                break
+
+
+# ---- InputFile (data setter, set_data_value)
+def copy_tree(value):
+    """Structural copy: containers are copied, leaves (entities, workspaces, uuids) shared."""
+    if isinstance(value, dict):
+        return {k: copy_tree(v) for k, v in value.items()}
+    if isinstance(value, list):
+        return [copy_tree(v) for v in value]
+    return value
+
+
+IF_KEYS = ["f", "fo", "s", "c", "o", "d", "a", "b"]
+
+
+def hist_inputfile(program, res, pid, state):
+    from copy import deepcopy
+
+    from geoh5py.ui_json import InputFile, templates
+    from geoh5py.ui_json.constants import default_ui_json
+    from geoh5py.workspace import Workspace
+
+    variant = program.get("variant", 0)
+    allow_known = bool(program.get("allow_known"))
+    ws = opened = None
+    try:
+        ws, cat = build_workspace(DEFAULT_WS)
+        ws.close()
+        opened = Workspace(cat["path"], mode="r")
+        obj0, obj1 = cat["objs"][0], cat["objs"][1]
+        uj = deepcopy(default_ui_json)
+        uj["geoh5"] = opened
+        uj["o"] = templates.object_parameter(value=str(obj0["uid"]))
+        uj["d"] = templates.data_parameter(parent="o", value=str(obj0["data"][0]["uid"]))
+        uj["f"] = templates.float_parameter(value=1.5)
+        uj["fo"] = templates.float_parameter(value=2.5, optional="disabled")
+        uj["s"] = templates.string_parameter(value="text")
+        uj["c"] = templates.choice_string_parameter(choice_list=["a", "b"], value="a")
+        uj["a"] = templates.float_parameter(value=3.5, optional="disabled")
+        uj["b"] = templates.float_parameter(value=4.5, optional="enabled")
+        extra = {"a": {"one_of": "a-or-b"}, "b": {"one_of": "a-or-b"}} if variant % 2 else None
+        res.label("inputfile:" + ("one_of" if extra else "plain"))
+        used = InputFile(ui_json=copy_tree(uj), validations=deepcopy(extra))
+        used.data  # pylint: disable=pointless-statement
+        unknown = _uuid.UUID(int=424242, version=4)
+        child = [d["uid"] for d in obj0["data"]]
+        stranger = obj1["data"][0]["uid"]
+        enabled_at_start = {k: f.get("enabled", True) for k, f in used.ui_json.items() if isinstance(f, dict)}
+        for call in program["calls"]:
+            key = IF_KEYS[call["k"] % len(IF_KEYS)]
+            label, value = POOL_VALUES[call["v"] % len(POOL_VALUES)]
+            number = dec(call.get("num", {"t": "float", "v": "1.5"}))
+            if key == "o":
+                label, value = [("same", obj0["uid"]), ("unknown", unknown), ("ill-formed", "not-a-uuid"),
+                                ("int5", 5), ("entity", opened.get_entity(obj0["uid"])[0])][call["v"] % 5]
+            elif key == "d":
+                label, value = [("child", child[call["op"] % len(child)]), ("stranger", stranger),
+                                ("unknown", unknown), ("ill-formed", "not-a-uuid"), ("int5", 5),
+                                ("child-entity", opened.get_entity(child[0])[0]),
+                                ("stranger-entity", opened.get_entity(stranger)[0])][call["v"] % 7]
+            elif key in ("f", "fo", "a", "b") and call["v"] % 3 == 0:
+                label, value = "number", number
+            use_setter = call["op"] % 2 == 0
+            op = "data_setter" if use_setter else "set_data_value"
+            form_now = used.ui_json[key]
+            # ---- by construction
+            if value is None:
+                expect = "accept" if form_now.get("enabled", True) is False else "reject"
+            elif key in ("f", "fo", "a", "b"):
+                expect = "accept" if isinstance(value, float) else ("unspecified" if isinstance(value, list)
+                                                                    else "reject")
+            elif key == "s":
+                expect = "accept" if isinstance(value, str) else ("unspecified" if isinstance(value, list)
+                                                                  else "reject")
+                if isinstance(value, str) and classify_string(value) != "str":
+                    expect = "unspecified"
+            elif key == "c":
+                expect = "unspecified" if isinstance(value, list) else ("accept" if value in ("a", "b") else "reject")
+            elif key == "o":
+                expect = "accept" if label in ("same", "entity") else "reject"
+            else:
+                expect = "accept" if label in ("child", "child-entity") else "reject"
+            # KNOWN FINDING guard (stale-optional): the None rule is frozen when the InputFile is built;
+            # it is not refreshed when an accepted value flips the parameter's `enabled` member
+            flipped = form_now.get("enabled", True) != enabled_at_start.get(key, True)
+            if value is None and flipped and not allow_known:
+                res.count("excluded_by_finding")
+                continue
+            one_of_now = bool(extra) and use_setter
+            if one_of_now and not allow_known:
+                res.count("excluded_by_finding")  # validate-data-pops-one-of
+                continue
+            before = (uj_view(used.data), uj_view(used.ui_json), rules_view(used.validations))
+            rules_before = rules_view(used.validators.validations)
+
+            def perform(target, key=key, value=value, use_setter=use_setter):
+                if use_setter:
+                    data = dict(target.data)
+                    data[key] = value
+                    target.data = data
+                else:
+                    target.set_data_value(key, value)
+
+            tree_before = copy_tree(used.ui_json)  # the current forms: what the fresh object starts from
+            got = verdict_of(lambda: perform(used))
+            try:
+                fresh_file = InputFile(ui_json=tree_before, validations=deepcopy(extra))
+                fresh_file.data  # pylint: disable=pointless-statement
+            except Exception as exc:
+                res.fail(f"{pid}/history/fresh-construct-raises/inputfile/{where_raised(exc)}",
+                         f"a fresh InputFile on the current form state was refused: {type(exc).__name__}: "
+                         f"{str(exc)[:300]}")
+                break
+            fresh = verdict_of(lambda: perform(fresh_file))
+            state.note(fresh[0])
+            what = f"{op}({key!r}, {label}={value!r})"
+            if expect != "unspecified" and fresh[0] != expect and not (fresh[0] == "crash" and expect == "reject"):
+                res.fail(f"{pid}/history/fresh-verdict-wrong/inputfile/{op}/{key}/{label}",
+                         f"fresh InputFile.{what} -> {fresh}; by construction {expect}")
+            known = None
+            if allow_known and value is None and flipped:
+                known = "stale-optional"
+            elif allow_known and one_of_now:
+                known = "validate-data-pops-one-of"
+            if rules_view(used.validators.validations) != rules_before:
+                sig = f"{pid}/history/call-changed-rules/inputfile/{op}"
+                res.fail(sig + (f"/known:{known}" if known else ""),
+                         f"{what} changed the validators' rule table")
+            same = compare_call(res, pid, "inputfile", op, got, fresh, what, known)
+            if got[0] != "accept":
+                after = (uj_view(used.data), uj_view(used.ui_json), rules_view(used.validations))
+                for name, a, b in zip(("data", "ui_json", "validations"), before, after):
+                    if a != b:
+                        res.fail(f"{pid}/history/rejected-call-changed-state/inputfile/{op}/{name}",
+                                 f"{what} was refused ({got[1]}) but {name} changed: {a[:400]} -> {b[:400]}")
+            if not same and not known:
+                break
+    finally:
+        env.close_quietly(opened, ws)
+
+
+# ---- UIJson (validate / update on the same object)
+def hist_uijson(program, res, pid, state):
+    from geoh5py.ui_json import forms as F
+    from geoh5py.ui_json import parameters as P
+    from geoh5py.ui_json.ui_json import UIJson
+
+    allow_known = bool(program.get("allow_known"))
+    ws = None
+    try:
+        ws, _cat = build_workspace({"objs": [{"cls": "Points", "n": 2, "data": ["float"], "pgs": []}],
+                                    "groups": 1, "dh": False})
+        ws.close()
+
+        def parameters():
+            return {
+                "title": P.StringParameter("title", value="my application"),
+                "geoh5": P.WorkspaceParameter("geoh5", value=ws),
+                "run_command": P.StringParameter("run_command"),
+                "run_command_boolean": F.BoolFormParameter("run_command_boolean", label="Run", value=False),
+                "monitoring_directory": P.StringParameter("monitoring_directory"),
+                "conda_environment": P.StringParameter("conda_environment"),
+                "conda_environment_boolean": P.BoolParameter("conda_environment_boolean"),
+                "workspace": P.WorkspaceParameter("workspace"),
+                "flag": F.BoolFormParameter("flag", label="Flag", value=True),
+                "tol": F.FloatFormParameter("tol", label="Tolerance", value=1.5, dependency="flag"),
+            }
+
+        params = parameters()
+        used = UIJson(params)
+        removed = {}
+        for call in program["calls"]:
+            op = call["op"] % 5
+            if op in (1, 2):
+                name = ["title", "flag", "run_command"][call["k"] % 3]
+                if op == 1 and name in used.parameters:
+                    removed[name] = used.parameters.pop(name)
+                    res.label("uijson:parameter-removed")
+                elif op == 2 and name in removed:
+                    used.parameters[name] = removed.pop(name)
+                continue
+            if op == 3:
+                label, value = POOL_VALUES[call["v"] % len(POOL_VALUES)]
+                target = used.parameters.get("tol")
+                before = snap(target.value)
+                expect = "accept" if value is None or isinstance(value, float) else "reject"
+
+                def assign(obj):
+                    obj.parameters["tol"].value = value
+
+                got = verdict_of(lambda: assign(used))
+                fresh_params = parameters()
+                fresh = verdict_of(lambda: assign(UIJson(fresh_params)))
+                state.note(fresh[0])
+                if fresh[0] != expect:
+                    res.fail(f"{pid}/history/fresh-verdict-wrong/uijson/value/{label}",
+                             f"fresh UIJson tol = {value!r} -> {fresh}; by construction {expect}")
+                if not compare_call(res, pid, "uijson", "value", got, fresh, f"tol = {value!r}"):
+                    break
+                if got[0] != "accept" and snap(target.value) != before:
+                    if allow_known:
+                        res.fail(f"{pid}/history/rejected-call-changed-state/uijson/value",
+                                 f"tol = {value!r} refused but value is now {snap(target.value)}")
+                    else:
+                        res.count("excluded_by_finding")
+                    target._value._value = dec_snap(before)  # pylint: disable=protected-access
+                continue
+            missing = [n for n in ("title", "flag", "run_command") if n not in used.parameters]
+            # KNOWN FINDING guard (pool-keeps-errors): two missing rules at once poison the pool
+            two_rules = "flag" in missing and ("title" in missing or "run_command" in missing)
+            if two_rules and not allow_known:
+                res.count("excluded_by_finding")
+                continue
+            expect = "accept" if not missing else "reject"
+            got = verdict_of(used.validate)
+            fresh_obj = UIJson(dict(used.parameters))
+            # the fresh object must know the same rules as the used one was built with
+            fresh_obj.enforcers = type(used.enforcers).from_validations(used.name, used.enforcers.validations)
+            fresh = verdict_of(fresh_obj.validate)
+            state.note(fresh[0])
+            if fresh[0] != expect:
+                res.fail(f"{pid}/history/fresh-verdict-wrong/uijson/validate/missing={'+'.join(missing) or '-'}",
+                         f"fresh UIJson.validate() -> {fresh}; missing parameters {missing}")
+            known = "pool-keeps-errors" if allow_known and getattr(used, "_c15_poisoned", False) else None
+            if two_rules:
+                used.__dict__["_c15_poisoned"] = True
+            if not compare_call(res, pid, "uijson", "validate", got, fresh, f"missing={missing}", known):
+                if not known:
+                    break
+    finally:
+        env.close_quietly(ws)
